@@ -144,12 +144,20 @@ def two_views(repo, fn, tier, pid, known):
         for o in inl:
             o.what += "  [decided on the helper-expanded view: the anchor construct lives in a private helper]"
         return inl
-    if new_inl:
-        return raw
-    # reported on the function as written, not with its helpers expanded: the construct moved into a helper -> not a violation
+    # a report of the first view stands when the second view reports the same thing: same rule and either the same
+    # construct (names of expanded locals lose their suffix) or the same opening of the message; a report that the second
+    # view does not repeat was about a construct that lives in a helper -> not a violation
+    import re as _re
+
+    def _sig(rep):
+        return (rep.rule, _re.sub(r"__inl\d+", "", rep.construct or "")), (rep.rule, (rep.msg or "")[:60])
+
+    confirmed = set()
+    for rep in new_inl:
+        confirmed.update(_sig(rep))
     for o in raw:
-        moved = [rep for rep in o.reports if (pid, rep.rule, rep.key) not in known]
-        o.reports = [rep for rep in o.reports if (pid, rep.rule, rep.key) in known]
+        moved = [rep for rep in o.reports if (pid, rep.rule, rep.key) not in known and not (set(_sig(rep)) & confirmed)]
+        o.reports = [rep for rep in o.reports if rep not in moved]
         for rep in moved:
             o.undecide(rep.file, rep.func, rep.construct, "not confirmed on the helper-expanded view (the construct lives in a private helper): " + rep.msg[:160])
     return raw
